@@ -65,7 +65,6 @@ func mutantsFor(prop string) []Mutant {
 		{"C07", "READ without SEEK", []Edit{{se, "\tes.SEEK()\n\treturn es.reader.Read(length)", "\treturn es.reader.Read(length)"}}},
 		{"C08", "lexer main loop ignores end of input in most states", []Edit{{lx, "\t\t} else if ch == 0 {\n\t\t\ts.unread_last()\n\t\t\tbreak\n", "\t\t} else if ch == 0 && current_state == SCOLON {\n\t\t\ts.unread_last()\n\t\t\tbreak\n"}}},
 		{"C08", "TokenType.PP loses a case", []Edit{{lx, "\tcase REGEXP:\n\t\treturn \"REGEXP\"\n", ""}}},
-		{"C14", "a sequence of regexp terms no longer ends at `|`", []Edit{{rx, "regexp[current_index] != ')' && regexp[current_index] != '|' {", "regexp[current_index] != ')' {"}}},
 		{"C08", "nil-success return in parse_between", []Edit{{ps, "\t\t\treturn nil, current_index, NewParseError(current_token, \"Expected identifier following keyword 'named'\")", "\t\t\treturn nil, current_index, nil"}}},
 		{"C08", "generator switch falls through to success", []Edit{{gen, "\treturn nil, NewGenError(fmt.Sprintf(\"Unknown listable '%T'\", il))", "\t_ = il\n\treturn []SearchInstruction{}, nil"}}},
 		{"C09", "instruction fetched past the end", []Edit{{sr, "\t\t\tif currentState.programCounter >= len(insts) {", "\t\t\tif currentState.programCounter > len(insts) {"}}},
@@ -193,6 +192,11 @@ func mutantsFor(prop string) []Mutant {
 		{"C09", "mode NOTHING no longer creates its memory writer", []Edit{{sr, "\tcase NOTHING:\n\t\twriter = files.WriterFromMemory()\n", "\tcase NOTHING:\n"}}},
 		{"C11", "a loop count that does not fit an int becomes 1", []Edit{{ps, "\tvalue, err := strconv.Atoi(current_token.Lexeme)\n\tif err != nil {\n\t\treturn nil, current_index, NewParseError(current_token, \"Error converting lexeme to number value\")\n\t}\n", "\tvalue, err := strconv.Atoi(current_token.Lexeme)\n\tif err != nil {\n\t\tvalue = 1\n\t}\n"}}},
 		{"C13", "a call no longer records where its text starts", []Edit{{se, "\t\tstartMatchOffset: len(es.currentMatch),\n", ""}}},
+		{"C08", "regex `|` at the end indexes past the pattern", []Edit{{rx, "\t\t\tif next_index+1 >= len(regexp) {\n\t\t\t\treturn nil, next_index, NewParseError(regexp_token, \"Unexpected end of regexp after '|'\")\n\t\t\t}\n", ""}}},
+		{"C08", "a range is checked by the first byte of its bounds", []Edit{{gen, "\tresult := MatchRange{\n\t\tFrom: l.From.Value,", "\tif l.From.Value[0] > l.To.Value[0] {\n\t\treturn nil, NewGenError(\"empty range\")\n\t}\n\tresult := MatchRange{\n\t\tFrom: l.From.Value,"}}},
+		{"C09", "the predicate verdict comes from a helper that may answer nil", []Edit{{sr, "\t\tif final_value.getBoolean() {\n\t\t\tnext_state.RETURN()", "\t\tif verdictOf(final_value, pstate).getBoolean() {\n\t\t\tnext_state.RETURN()"}, {sr, "func matchJump(", "// verdictOf answers what the predicate returned\nfunc verdictOf(value ProcessValue, state ProcessState) ProcessValue {\n\tif state.status != RETURNING {\n\t\treturn nil\n\t}\n\treturn value\n}\n\nfunc matchJump("}}},
+		{"C19", "debug output is serialised with a lock that is not deferred", []Edit{{ex, "func executeDebug(s *ast.AstProcessDebug, state ProcessState) ProcessState {\n\texpr_state := executeExpression(&s.Expr, state)\n\tfmt.Println(expr_state.currentValue.getString())\n", "var debug_lock sync.Mutex\n\nfunc executeDebug(s *ast.AstProcessDebug, state ProcessState) ProcessState {\n\tdebug_lock.Lock()\n\texpr_state := executeExpression(&s.Expr, state)\n\tfmt.Println(expr_state.currentValue.getString())\n\tdebug_lock.Unlock()\n"}, {ex, "import (\n\t\"fmt\"\n", "import (\n\t\"fmt\"\n\t\"sync\"\n"}}},
+		{"C19", "RunFiles filters the list of names in place", []Edit{{"libvore/engine/engine.go", "\t\tactualMode = NOTHING\n\t}\n\tresult := Matches{}\n", "\t\tactualMode = NOTHING\n\t}\n\tkept := filenames[:0]\n\tfor _, name := range filenames {\n\t\tif name != \"\" {\n\t\t\tkept = append(kept, name)\n\t\t}\n\t}\n\tfilenames = kept\n\tresult := Matches{}\n"}}},
 		{"C08", "expression scan does not stop on the EOF token", []Edit{{ps, "tokenType == BREAK || tokenType == CONTINUE || tokenType == EOF", "tokenType == BREAK || tokenType == CONTINUE"}}},
 	}
 	var out []Mutant
